@@ -131,7 +131,10 @@ TKeff == /\ Rec.ev = "keff"
             IN T2(Rec.out) = ApplyKeff(Lb, Rb, T2(Rec.C))
          /\ den' = den
 
-TAny == TNewMps \/ TNewMpo \/ TAddMps \/ TAddMpo \/ TMul \/ TApply \/ TIdentity \/ TDenseVec \/ TDenseMat
+(* clauses decided numerically by the harness (mode N), e.g. dense = sparse form for operators of tiny / huge magnitude *)
+TFlag == /\ Rec.ev = "flag" /\ Rec.ok /\ den' = den
+
+TAny == TFlag \/ TNewMps \/ TNewMpo \/ TAddMps \/ TAddMpo \/ TMul \/ TApply \/ TIdentity \/ TDenseVec \/ TDenseMat
         \/ TVdot \/ TAvg \/ TOda \/ TBlocks \/ TStepLR \/ TStep2 \/ THeff \/ THeff2 \/ TKeff
 TStep == HasRec /\ TAny /\ Advance
 TNextTrace == /\ tid <= Len(Tr) /\ l > Len(Tr[tid])
@@ -151,6 +154,7 @@ Diagnose ==
     ELSE IF Rec.ev \in {"step_left", "step_right", "cstep_left", "cstep_right"} THEN "transfer contraction step differs from the index sum"
     ELSE IF Rec.ev = "heff" THEN "apply_local_hamiltonian: index sum / projection identity / Hermiticity"
     ELSE IF Rec.ev = "heff2" THEN "two-site local Hamiltonian: merged tensors or index sum differ"
+    ELSE IF Rec.ev = "flag" THEN Rec.what
     ELSE IF Rec.ev = "keff" THEN "apply_local_bond_contraction differs from the index sum"
     ELSE "unexpected event"
 TReject == /\ HasRec /\ ~ENABLED TStep
